@@ -11,11 +11,11 @@ import (
 
 func init() {
 	register("C25", propMeta{
-		Explanation:  "Decides the clause 'a read never crashes the process' and the structural conditions of damage tolerance, not reconstruction itself: (R1) every slice/index of bytes that come from a shard file (the ReadFile result in GetOne, the per-shard metadata handed to Decode, the pad byte used to size the result) is dominated by a nil/length guard on the same expression; (R2) a write fails exactly when the number of failed shard writes exceeds ParityShardsCount (counter compared with `>` against that field, counter incremented once per received error); (R3) the three sites that know the shard file layout agree: Add and the repair branch write metadata||shard, GetOne splits at erasure.MetaDataSize, ComputeShardMetadata returns 1+md5.Size = MetaDataSize bytes, and all sites build the file name with the same format over the shard index; (R4) checksum-based detection examines every shard (the loop ranges over the whole shards parameter), a shard is discarded only on checksum mismatch, and every failure of the final verification yields a non-nil error.",
+		Explanation:  "Decides the clause 'a read never crashes the process' and the structural conditions of damage tolerance, not reconstruction itself: (R1) every slice/index of bytes that come from a shard file (the ReadFile result in GetOne, the per-shard metadata handed to Decode, the pad byte used to size the result) is dominated by a nil/length guard on the same expression; (R2) a write fails exactly when the number of failed shard writes exceeds ParityShardsCount (counter compared with `>` against that field, counter incremented once per received error); (R3) the three sites that know the shard file layout agree: Add and the repair branch write metadata||shard, GetOne splits at erasure.MetaDataSize, ComputeShardMetadata returns 1+md5.Size = MetaDataSize bytes, and all sites build the file name with the same format over the shard index; (R4) checksum-based detection examines every shard (the loop ranges over the whole shards parameter), a shard is discarded only on checksum mismatch, and every failure of the final verification yields a non-nil error. (R5) every ComputeShardMetadata call receives len(E) for the very blob E whose Encode produced the shards it is computed over (the pad count a later read applies comes from this metadata).",
 		DoesNotCover: "That Reed-Solomon reconstruction returns the stored bytes (library behaviour and arithmetic) is not decided.",
 	}, runC25)
 	register("C26", propMeta{
-		Explanation:  "Decides only 'the repairing read rewrites what it reconstructed, in the on-disk format': (R1) in GetOne the repair block is entered exactly under repairCorruptedShards && len(ReconstructedShardsIndeces) > 0, iterates over all reported indices and for each writes ComputeShardMetadata(len(decoded), encoded, i) || encoded[i] to the path of shard i; (R2) Decode's reported index set on the success path includes the shards found missing AND those found corrupt (the second phase must not discard the first phase's list).",
+		Explanation:  "Decides only 'the repairing read rewrites what it reconstructed, in the on-disk format': (R1) in GetOne the repair block is entered exactly under repairCorruptedShards && len(ReconstructedShardsIndeces) > 0, iterates over all reported indices and for each writes ComputeShardMetadata(len(decoded), encoded, i) || encoded[i] to the path of shard i; (R2) Decode's reported index set on the success path includes the shards found missing AND those found corrupt (the second phase must not discard the first phase's list). Every DecodeResult returned by detectBadShardsThenReconstruct sets Error or carries the list of corrupt shards.",
 		DoesNotCover: "That every shard file is intact afterwards and that p further failures are then tolerated (runtime, library).",
 	}, runC26)
 }
@@ -436,6 +436,85 @@ func runC25(c *Ctx) {
 	}
 
 	// ---- R4 ----
+	r5 := c.Rule("R5", "shard metadata (pad count, checksum) is computed from the length of the very blob whose Encode produced the shards it is computed over", 2)
+	{
+		nSites := 0
+		for _, root := range []string{"fs.BlobStoreWithEC.Add", "fs.BlobStoreWithEC.GetOne"} {
+			fr := w.Fn(root)
+			c.Analysed(fr)
+			defs := map[types.Object][]ast.Expr{}
+			fns := append([]*Func{fr}, w.allLits(fr)...)
+			for _, fn := range fns {
+				for k, v := range localDefs(fn) {
+					defs[k] = append(defs[k], v...)
+				}
+			}
+			// tuple definitions `x, err := call(...)`: localDefs records the call for every left-hand side
+			canon := func(info *types.Info, e ast.Expr) string {
+				for i := 0; i < 4; i++ {
+					id, ok := ast.Unparen(e).(*ast.Ident)
+					if !ok {
+						break
+					}
+					ds := defs[info.Uses[id]]
+					if len(ds) != 1 {
+						break
+					}
+					if _, isCall := ast.Unparen(ds[0]).(*ast.CallExpr); isCall {
+						break
+					}
+					e = ds[0]
+				}
+				return types.ExprString(ast.Unparen(e))
+			}
+			for _, fn := range fns {
+				info := fn.Pkg.TypesInfo
+				for _, cs := range w.Sites(fn) {
+					if cs.Key != "fs/erasure.Erasure.ComputeShardMetadata" || len(cs.Call.Args) != 3 {
+						continue
+					}
+					nSites++
+					construct := fmt.Sprintf("%s: ComputeShardMetadata #%d gets the encoded blob's own length", shortKey(root), nSites)
+					// the shards: defined by Encode(E)
+					var encArg ast.Expr
+					if id, ok := ast.Unparen(cs.Call.Args[1]).(*ast.Ident); ok {
+						for _, d := range defs[info.Uses[id]] {
+							if call, ok := ast.Unparen(d).(*ast.CallExpr); ok {
+								if ecs := w.resolveCall(fn, call); ecs != nil && ecs.Key == "fs/erasure.Erasure.Encode" && len(call.Args) == 1 {
+									encArg = call.Args[0]
+								}
+							}
+						}
+					}
+					// the size: len(E') directly or through one local
+					var sizeArg ast.Expr
+					se := cs.Call.Args[0]
+					if id, ok := ast.Unparen(se).(*ast.Ident); ok {
+						if ds := defs[info.Uses[id]]; len(ds) == 1 {
+							se = ds[0]
+						}
+					}
+					if call, ok := ast.Unparen(se).(*ast.CallExpr); ok && len(call.Args) == 1 {
+						if id, ok := ast.Unparen(call.Fun).(*ast.Ident); ok {
+							if b, isB := info.Uses[id].(*types.Builtin); isB && b.Name() == "len" {
+								sizeArg = call.Args[0]
+							}
+						}
+					}
+					okM := encArg != nil && sizeArg != nil && canon(info, encArg) == canon(info, sizeArg)
+					detail := "size is not len(<the blob passed to Encode>)"
+					if encArg != nil && sizeArg != nil {
+						detail = fmt.Sprintf("size is len(%s) but the shards come from Encode(%s)", canon(info, sizeArg), canon(info, encArg))
+					} else if encArg == nil {
+						detail = "the shards passed are not the result of an Encode call in this function (e.g. the padded shards Decode reconstructed): their total length is a multiple of the data shard count, so the pad count stored in the metadata becomes 0"
+					}
+					c.Check(okM, r5, construct, cs.Call.Pos(), "len(E) with shards := Encode(E)", detail+": a later read takes the pad count from this shard's metadata and returns the blob with trailing zero bytes", nil)
+				}
+			}
+		}
+		c.Check(nSites >= 2, r5, "ComputeShardMetadata call sites inventoried", token.NoPos, fmt.Sprintf("%d", nSites), fmt.Sprintf("only %d", nSites), nil)
+	}
+
 	r4 := c.Rule("R4", "checksum detection examines every shard, discards only on mismatch, and a failed final verification is an error", 4)
 	{
 		g := w.G(fDet)
@@ -690,6 +769,67 @@ func runC26(c *Ctx) {
 	pos := fd.Decl.Pos()
 	if overwrite != nil {
 		pos = overwrite.Ast.Pos()
+	}
+	// detectBadShardsThenReconstruct: every result either reports an error or names the shards it found corrupt
+	{
+		fdet := w.Fn("fs/erasure.Erasure.detectBadShardsThenReconstruct")
+		gdet := w.G(fdet)
+		c.Analysed(fdet)
+		di := fdet.Pkg.TypesInfo
+		errFld := w.Field("fs/erasure", "DecodeResult", "Error")
+		corr := w.localVar(fdet, "corruptedShardsIndices")
+		// the list is the only slice appended to with a shard index inside the checksum loop: fall back to any local
+		// []int appended to in the function when the name changed
+		if corr == nil {
+			for o, ds := range localDefs(fdet) {
+				if sl, ok := o.Type().Underlying().(*types.Slice); ok && types.Identical(sl.Elem(), types.Typ[types.Int]) {
+					for _, d := range ds {
+						if w.mentionsCall(fdet, d, "builtin.append") {
+							corr, _ = o.(*types.Var)
+						}
+					}
+				}
+			}
+		}
+		var offs []Offence
+		nRet := 0
+		for _, n := range gdet.Nodes {
+			if n.Ret == nil || len(n.Ret.Results) != 1 {
+				continue
+			}
+			nRet++
+			okRet := false
+			ast.Inspect(n.Ret.Results[0], func(x ast.Node) bool {
+				cl, ok := x.(*ast.CompositeLit)
+				if !ok {
+					return true
+				}
+				for _, el := range cl.Elts {
+					kv, ok := el.(*ast.KeyValueExpr)
+					if !ok {
+						continue
+					}
+					id, _ := kv.Key.(*ast.Ident)
+					if id == nil {
+						continue
+					}
+					fo := originOf(di.Uses[id])
+					if fo == types.Object(errFld) && !isNilLit(di, kv.Value) {
+						okRet = true
+					}
+					if fo == types.Object(idxFld) && corr != nil && mentionsObj(di, kv.Value, corr) {
+						okRet = true
+					}
+				}
+				return true
+			})
+			if !okRet {
+				offs = append(offs, Offence{n, nil})
+			}
+		}
+		c.Check(nRet >= 3, r2, "detectBadShardsThenReconstruct: returns inventoried", fdet.Decl.Pos(), fmt.Sprintf("%d returns", nRet), fmt.Sprintf("only %d returns", nRet), nil)
+		c.Offences(gdet, offs, r2, "detectBadShardsThenReconstruct: every result carries an error or the list of corrupt shards", fdet.Decl.Pos(), "each returned DecodeResult sets Error or ReconstructedShardsIndeces: <the corrupt list>",
+			"a result without error and without the corrupt shards' indices: the repairing read does not learn that shard files are corrupt and never rewrites them, so the redundancy stays degraded")
 	}
 	c.Check(overwrite == nil || merged, r2, "Decode: second phase keeps the first phase's reconstructed indices", pos, "index lists are merged",
 		"`r = dr` replaces the result of reconstructMissingShards by the result of detectBadShardsThenReconstruct: the indices of shards that were missing are dropped from ReconstructedShardsIndeces, so the repairing read never rewrites them", nil)
